@@ -19,6 +19,19 @@ Monitors
            based channel open + SDU echo, SMP Pairing Request -> Pairing Response, SDP
            ServiceSearch, RFCOMM echo on the DLC, AT+CMEE=1 -> OK, HF command/OK and +CIEV,
            AVDTP Discover, AVRCP GetCapabilities)
+  flow     (hci-flow) the harness plays a controller that uses command flow control as Core Vol 4 Part E 4.4
+           allows: responses with Num_HCI_Command_Packets = 0, the window re-opened by an opcode-0 Command
+           Complete / Command Status in the same delivery burst, a few loop turns or some virtual time later,
+           preceded by opcode-0 events that still say 0, repeated, interleaved with unrelated events; every
+           host command of the history and a reference Read_BD_ADDR must complete within 300 virtual s
+  dialogue (br-config) Configure Requests with every unknown / hint / unimplemented option type during the
+           configuration of a fresh channel (opened by the peer or by the victim, the victim's own request
+           answered before, after, or first refused with a counter-proposal), then the well-formed retry:
+           it must be answered SUCCESS, the channel must open and carry data in both directions
+  nesting  structure-aware deep nesting (pure, 1-3 siblings before/after the nested list at every level,
+           SEQUENCE / ALTERNATIVE alternating, depths 30..2000) in SDP requests (sdp) and in the responses
+           parsed by the victim's sdp.Client (sdp-client, whole or over continuation responses), and nested
+           parentheses with siblings in AT lines: RAISE monitor for RecursionError / MemoryError + work meter
 Mechanism keys: wedge/<channel>/<what>, derail/<channel>/<what>.
 """
 from __future__ import annotations
@@ -40,7 +53,13 @@ RULE = ('per channel: (a) enumeration of every truncation length and every lengt
         'mutations, spliced, random, empty, deep SDP nesting, malformed AT lines / framing}; after each round '
         'the reference request of that channel. A round is non-trivial when at least one frame differs from '
         'every valid corpus PDU and the reference request was evaluated; distinct = distinct (channel, frame '
-        'bytes sequence) hash')
+        'bytes sequence) hash. hci-flow: enumeration of {closing response CC/CS} x {re-opening event CC/CS} x '
+        '{same burst, +1 turn, +3 turns, later} x {0/1 still-closed events first} x {1/2 re-opening events} x '
+        '{unrelated event none/before/between/after} x {0-2 commands waiting}, plus seeded histories of 1-10 such '
+        'steps; br-config: every refusable option alone and after an MTU option as the first request of a fresh '
+        'channel, plus seeded dialogues of 1-3 refusable requests; sdp / sdp-client: every (siblings before, siblings '
+        'after) in {(1,0),(0,1),(1,1),(2,0),(0,2),(3,0),(0,3),(2,1),(3,3)} x {seq, alt, alternating} x 4 sibling '
+        'types x depths {30,33,64,200,700,1000,2000} (quick: those below 6 KB, every third), random ones in the rounds')
 ASSUMPTIONS = [
     'the virtual link loses nothing; hostile frames are whole L2CAP PDUs (fragmented by the attacker host as usual) '
     'or whole H4 packets',
@@ -50,6 +69,15 @@ ASSUMPTIONS = [
     'the attacker is alive: it acknowledges what the victim sends where the protocol needs it (answers OK to AT commands '
     'from an HF victim, grants RFCOMM credits)',
     'work budget: 10^6 Python calls (PY_START) or 10^7 loop back-edges (JUMP) per injected frame',
+    'hci-flow: the played controller never allows more commands than bumble\'s host can have outstanding (one): the window '
+    'is only re-opened after the response that closed it, and a second identical re-opening event is only sent while no '
+    'other command waits (whether extra credits are counted correctly is flow-control accounting, not this property)',
+    'br-config: hostile Configure Requests carry no continuation flag; a request the victim accepts with SUCCESS ends the '
+    'peer\'s side of the configuration (no retry owed); a victim that closes the channel instead (Disconnection Request) '
+    'owes nothing more on it, the next channel must work',
+    'sdp-client: a hostile response the client legitimately accepts (valid PDU, right transaction ID) may make the '
+    'outstanding call return garbage or raise an ordinary exception; only its termination is judged, correctness is judged '
+    'on the fresh query that follows',
 ]
 MIN_EVENTS = {
     'quick': {'frames': 9000, 'references': 1500, 'oracle_evals': 6000, 'metered_frames': 9000,
@@ -63,9 +91,9 @@ SHARD_TIMEOUT = {'quick': 900, 'thorough': 7200}
 CALL_BUDGET = 1_000_000
 JUMP_BUDGET = 10_000_000
 
-LE_CHANNELS = ['att', 'att-client', 'smp', 'le-sig', 'le-coc', 'hci-le']
+LE_CHANNELS = ['att', 'att-client', 'smp', 'le-sig', 'le-coc', 'hci-le', 'hci-flow']
 BR_CHANNELS = ['br-sig', 'smp-br', 'br-dyn', 'br-ertm', 'sdp', 'rfcomm-mux', 'rfcomm-dlc', 'hfp-ag', 'hfp-hf',
-               'avdtp', 'avctp', 'hci-br']
+               'avdtp', 'avctp', 'hci-br', 'br-config', 'sdp-client']
 CHANNELS = LE_CHANNELS + BR_CHANNELS
 
 for _c in CHANNELS:
@@ -74,10 +102,35 @@ for _c in CHANNELS:
     MIN_EVENTS['thorough'][f'references_{_c}'] = 3000
     MIN_EVENTS['thorough'][f'frames_{_c}'] = 15000
 
+# (a configuration dialogue has 1-4 hostile requests per fresh channel: fewer frames per reference than elsewhere)
+MIN_EVENTS['quick']['frames_br-config'] = 200
+MIN_EVENTS['thorough']['frames_br-config'] = 12000
+
+# deciding counters of the three dialogue / structure surfaces
+MIN_EVENTS['quick'].update({
+    'flow_zero_credit_responses': 300, 'flow_zero_credit_cc': 100, 'flow_zero_credit_cs': 40,
+    'flow_nops_same_burst': 80, 'flow_nops_next_turns': 80, 'flow_nops_later': 40, 'flow_nops_cc': 100, 'flow_nops_cs': 100,
+    'flow_commands_completed': 400, 'flow_reference_commands_ok': 60,
+    'config_refusals_observed': 150, 'config_retries_answered': 100, 'config_channels_carry_data': 80,
+    'config_victim_initiated_opened': 10,
+    'class_deep-nesting-siblings': 150, 'sdpc_deep_responses_parsed': 40, 'sdpc_calls_completed': 150,
+    'host_command_references': 800,
+})
+MIN_EVENTS['thorough'].update({
+    'flow_zero_credit_responses': 20000, 'flow_zero_credit_cc': 8000, 'flow_zero_credit_cs': 3000,
+    'flow_nops_same_burst': 5000, 'flow_nops_next_turns': 5000, 'flow_nops_later': 2500, 'flow_nops_cc': 8000, 'flow_nops_cs': 8000,
+    'flow_commands_completed': 25000, 'flow_reference_commands_ok': 3000,
+    'config_refusals_observed': 8000, 'config_retries_answered': 5000, 'config_channels_carry_data': 4000,
+    'config_victim_initiated_opened': 500,
+    'class_deep-nesting-siblings': 5000, 'sdpc_deep_responses_parsed': 2000, 'sdpc_calls_completed': 8000,
+    'host_command_references': 15000,
+})
+
 KNOWN_VALUE = b'C17-known-value'
 ECHO_PSM_LE = 0x0081
 ECHO_PSM_BR = 0x1001
 ECHO_PSM_ERTM = 0x1003
+PEER_PSM = 0x1005            # a PSM the hand-written peer serves (channels opened by the victim)
 SDP_HANDLE = 0x00010001
 
 
@@ -89,8 +142,8 @@ def plan(tier, seed):
     quick = tier == 'quick'
     # (a) enumeration: every truncation / length setting, split in parts
     parts = {'att': 2, 'att-client': 1, 'smp': 2, 'le-sig': 3, 'le-coc': 1, 'hci-le': 10, 'br-sig': 4, 'smp-br': 2,
-             'br-dyn': 1, 'br-ertm': 1, 'sdp': 4, 'rfcomm-mux': 3, 'rfcomm-dlc': 2, 'hfp-ag': 1, 'hfp-hf': 1,
-             'avdtp': 2, 'avctp': 4, 'hci-br': 10}
+             'br-dyn': 1, 'br-ertm': 1, 'sdp': 6, 'rfcomm-mux': 3, 'rfcomm-dlc': 2, 'hfp-ag': 1, 'hfp-hf': 1,
+             'avdtp': 2, 'avctp': 4, 'hci-br': 10, 'hci-flow': 4, 'br-config': 4, 'sdp-client': 4}
     for chan in CHANNELS:
         n = parts[chan]
         for i in range(n):
@@ -273,7 +326,11 @@ async def inject(env: Env, frames, tx, burst=False, phys=lambda data: 1):
             return False
         if env.fatal:
             kind = env.fatal[0].split(': ')[1]
-            env.bad(f'wedge/{env.chan}/fatal-{kind}', f'{env.fatal[:3]} after {what}')
+            # (the shape class of a structure-aware nesting frame is part of the mechanism)
+            shaped = sorted({k.split('-', 1)[1] if k.startswith(('solo-', 'single-')) else k for k, _n, _d in g})
+            shaped = [k for k in shaped if k.startswith('deep-nesting-')]
+            suffix = f'/{shaped[0]}' if shaped else ''
+            env.bad(f'wedge/{env.chan}/fatal-{kind}{suffix}', f'{env.fatal[:3]} after {what}')
             env.fatal.clear()
             return False
     return True
@@ -350,6 +407,39 @@ class Attacker:
             if pred(*s):
                 return self.sigs.pop(i)
         return None
+
+    # -- classic dynamic channels opened by the victim, accepted by hand ------------
+    def serve(self, psm, auto_config=True):
+        """Accept Connection Requests of the victim for `psm`. auto_config: also run the configuration
+        (own Configure Request with an MTU option, SUCCESS to every Configure Request of the victim)."""
+        if not hasattr(self, 'serving'):
+            self.serving = {}
+            self.served = []           # (my cid, victim cid, psm) in order of acceptance
+            self.autoconf = {}         # my cid -> victim cid
+            self.auto.append(self._serve_hook)
+        self.serving[psm] = auto_config
+
+    def _serve_hook(self, cid, payload):
+        if cid != self.sig_cid:
+            return
+        off = 0
+        while off + 4 <= len(payload):
+            code, ident, ln = struct.unpack_from('<BBH', payload, off)
+            d = payload[off + 4: off + 4 + ln]
+            off += 4 + ln
+            if code == 0x02 and len(d) >= 4:
+                psm, scid = struct.unpack_from('<HH', d, 0)
+                if psm in self.serving:
+                    my = self.new_cid()
+                    self.send_sig(0x03, ident, rf.u16(my) + rf.u16(scid) + rf.u16(0) + rf.u16(0))
+                    self.served.append((my, scid, psm))
+                    if self.serving[psm]:
+                        self.autoconf[my] = scid
+                        self.send_sig(0x04, self.nid(), rf.u16(scid) + rf.u16(0) + rf.conf_opt(1, rf.u16(4096)))
+            elif code == 0x04 and len(d) >= 4:
+                dcid = struct.unpack_from('<H', d, 0)[0]
+                if dcid in self.autoconf:
+                    self.send_sig(0x05, ident, rf.u16(self.autoconf[dcid]) + rf.u16(0) + rf.u16(0) + d[4:])
 
     # -- classic dynamic channel by hand ----------------------------------------
     async def open_classic(self, psm, ertm=False, mtu=1024):
@@ -957,7 +1047,22 @@ class HciDriver(Driver):
         self.proxy.on_packet(data)
 
     async def reference(self):
-        return await (self.l2cap_echo() if self.classic else self.att_read())
+        from bumble import hci
+        bad = await (self.l2cap_echo() if self.classic else self.att_read())
+        # the command path of the host is still usable: a command the controller answers must complete
+        host = self.env.rg.hosts[0]
+        want = bytes.fromhex(self.env.rg.addresses[0].replace(':', ''))[::-1]
+        try:
+            res = await vloop.vwait(host.send_sync_command(hci.HCI_Read_BD_ADDR_Command()), 120)
+            self.env.r.ev('host_command_references')
+            if bytes(res.bd_addr) != want:
+                bad.append(('host-command-wrong-result-after-garbage', f'Read_BD_ADDR returned {bytes(res.bd_addr).hex()} != {want.hex()}'))
+        except vloop.Hang:
+            bad.append(('wedge:host-command-never-completes', 'Read_BD_ADDR still pending after 120 virtual s although the controller '
+                        f'answers; command_semaphore locked={host.command_semaphore.locked()} pending_command={host.pending_command}'))
+        except Exception as e:      # noqa: BLE001
+            bad.append(('host-command-fails-after-garbage', f'Read_BD_ADDR raised {type(e).__name__}: {e} although the controller answered it'))
+        return bad
 
 
 class BrSigDriver(Driver):
@@ -1099,18 +1204,29 @@ class SdpDriver(ChannelDriver):
         self.max_len = 700
         self.tid = 0x4000
         self.deep = None
+        self.specs = None
 
     def gen(self, n):
         out = super().gen(n)
-        if self.rng.random() < 0.25:
+        k = self.rng.random()
+        if k < 0.15:
             if self.deep is None:
-                self.deep = rf.sdp_deep_frames(self.rng, 12000)
+                self.deep = rf.sdp_deep_frames(self.rng, 12000, siblings=False)
             out[self.rng.randrange(len(out))] = self.rng.choice(self.deep)
+        elif k < 0.4:
+            # nesting with siblings before / after the nested list at every level (one frame built on demand)
+            if self.specs is None:
+                self.specs = rf.sdp_shaped_specs()
+            fr = rf.sdp_deep_sibling_frames(24000, [self.rng.choice(self.specs)])
+            if fr:
+                out[self.rng.randrange(len(out))] = fr[0]
         return out
 
     def enum_frames(self):
         yield from super().enum_frames()
-        yield from rf.sdp_deep_frames(self.rng, 12000)
+        # (quick tier: the frames that need hundreds of ACL fragments are left to the thorough tier and the random rounds)
+        quick = self.env.case.get('stride', 1) > 1
+        yield from rf.sdp_deep_frames(self.rng, 12000, sibling_bytes=6000 if quick else 24000)
 
     async def reference(self):
         self.tid = (self.tid + 1) & 0xFFFF
@@ -1453,6 +1569,688 @@ class AvctpDriver(ChannelDriver):
 
 
 # =============================================================================
+# (a) command flow control: a controller that closes and re-opens the command window
+# =============================================================================
+FLOW_RESP = ('sync', 'async')           # the window is closed by a Command Complete / by a Command Status
+FLOW_NOP = ('cc', 'cs')                 # ... and re-opened by an opcode-0 Command Complete / Command Status
+FLOW_TIMING = ('burst', 'turn1', 'turn3', 'later')
+FLOW_INTER = ('none', 'before', 'between', 'after')
+FLOW_SYNC_CMDS = ('bd_addr', 'local_name', 'local_version', 'le_buffer_size', 'le_rand', 'unknown_sync')
+FLOW_DELAYS = (0.01, 0.5, 2.0, 5.0)
+
+
+def flow_script(resp, nop, timing, pre_zero, dup, inter, num, extra, cmd, delay, neutral):
+    return bytes([FLOW_RESP.index(resp), FLOW_NOP.index(nop), FLOW_TIMING.index(timing), pre_zero, dup,
+                  FLOW_INTER.index(inter), num, extra, cmd, delay, neutral])
+
+
+def flow_class(plan) -> str:
+    if plan is None:
+        return 'after-unshaped-responses'
+    t = {'burst': 'same-burst', 'turn1': 'next-turns', 'turn3': 'next-turns', 'later': 'later'}[plan['timing']]
+    return f"after-{plan.get('resp', '?')}-zero-credits+{plan['nop']}-nop-{t}"
+
+
+class FlowShaper:
+    """Stands between the controller->host pipe and the victim and plays a controller that uses command flow
+    control the way Core Vol 4 Part E 4.4 allows: the response to a command carries Num_HCI_Command_Packets = 0
+    and the window is re-opened by an event for opcode 0x0000 (Command Complete, 7.7.14, or Command Status with
+    status 0, 7.7.15), in the same delivery burst as the response, a few loop turns later, or after some
+    (virtual) time; preceded by opcode-0 events that still say 0, repeated, and interleaved with events that
+    have nothing to do with flow control."""
+
+    def __init__(self, drv, inner):
+        self.drv = drv
+        self.inner = inner
+        self.plans: list[dict] = []
+
+    def on_packet(self, packet):
+        plan = None
+        if len(packet) >= 6 and packet[0] == 0x04 and packet[1] in (0x0E, 0x0F):
+            off = 4 if packet[1] == 0x0E else 5
+            opcode = int.from_bytes(packet[off:off + 2], 'little')
+            # (the host sends its commands one at a time in the order they were issued: the head of the list
+            # belongs to this response)
+            if self.plans and self.plans[0]['opcode'] == opcode:
+                plan = self.plans.pop(0)
+        if plan is None or not plan.get('shaped'):
+            return self.inner.on_packet(packet)
+        drv = self.drv
+        r = drv.env.r
+        plan['resp'] = 'cc' if packet[1] == 0x0E else 'cs'
+        drv.last_shaped = plan
+        r.ev('flow_zero_credit_responses')
+        r.ev(f"flow_zero_credit_{plan['resp']}")
+        nop = rf.hci_nop_command_complete if plan['nop'] == 'cc' else rf.hci_nop_command_status
+        neutral = drv.neutral[plan['neutral'] % len(drv.neutral)]
+        first = []
+        if plan['inter'] == 'before':
+            first.append(('neutral', neutral))
+        first += [('nop-zero', nop(0))] * plan['pre_zero']
+        if plan['inter'] == 'between':
+            first.append(('neutral', neutral))
+
+        def reopen():
+            # (a second identical re-opening event only when no other command is waiting for the window:
+            # bumble's host counts each of them as one more credit, which is a question of flow-control
+            # accounting, not of this property)
+            others = sum(1 for t, _p in drv.tasks if not t.done() and t is not plan.get('task'))
+            evs = [('nop', nop(plan['num']))] * (plan['dup'] if others == 0 else 1)
+            if plan['inter'] == 'after':
+                evs.append(('neutral', neutral))
+            self.deliver(evs, plan)
+
+        self.inner.on_packet(rf.hci_set_num_command_packets(packet, 0))
+        self.deliver(first, plan)
+        loop = asyncio.get_running_loop()
+        if plan['timing'] == 'burst':
+            reopen()
+        elif plan['timing'] == 'later':
+            loop.call_later(FLOW_DELAYS[plan['delay'] % len(FLOW_DELAYS)], reopen)
+        else:
+            turns = 1 if plan['timing'] == 'turn1' else 3
+
+            def step(n):
+                if n <= 0:
+                    reopen()
+                else:
+                    loop.call_soon(step, n - 1)
+            loop.call_soon(step, turns - 1)
+
+    def deliver(self, evs, plan):
+        r = self.drv.env.r
+        for what, data in evs:
+            r.ev('flow_events_delivered')
+            if what == 'nop':
+                r.ev({'burst': 'flow_nops_same_burst', 'later': 'flow_nops_later'}.get(plan['timing'], 'flow_nops_next_turns'))
+                r.ev(f"flow_nops_{plan['nop']}")
+            elif what == 'nop-zero':
+                r.ev('flow_nops_still_zero')
+            else:
+                r.ev('flow_neutral_events')
+            self.inner.on_packet(data)
+
+
+class FlowDriver(Driver):
+    """Histories of host commands whose responses close the command window (see FlowShaper); afterwards every
+    command - those of the history and a reference Read_BD_ADDR - must complete in bounded virtual time."""
+
+    def __init__(self, env, rng):
+        super().__init__(env, rng)
+        self.host = env.rg.hosts[0]
+        self.shaper = FlowShaper(self, env.rg.c2h[0].target)
+        env.rg.c2h[0].target = self.shaper
+        self.neutral = rf.hci_neutral_events(env.vh)
+        self.tasks: list = []          # (task, plan | None)
+        self.last_shaped = None
+        self.address = bytes.fromhex(env.rg.addresses[0].replace(':', ''))[::-1]
+        case = env.case
+        if case['mode'] == 'enum':
+            self.nops = (FLOW_NOP[case['part'] % 2],)
+        else:
+            self.nops = rng.choice([('cc',), ('cc',), ('cs',), ('cs',), ('cc', 'cs')])
+
+    # -- scripts -----------------------------------------------------------------
+    def name_of(self, sc):
+        return (f'{FLOW_RESP[sc[0]]}-response-zero+{sc[3]}x{FLOW_NOP[sc[1]]}-nop(0)+{sc[4]}x{FLOW_NOP[sc[1]]}-nop({sc[6]})-'
+                f'{FLOW_TIMING[sc[2]]}/neutral-{FLOW_INTER[sc[5]]}/+{sc[7]}-concurrent')
+
+    def gen(self, n):
+        rng = self.rng
+        out = []
+        for _ in range(n):
+            sc = flow_script(rng.choice(FLOW_RESP), rng.choice(self.nops), rng.choice(FLOW_TIMING), rng.choice([0, 0, 1, 2]),
+                             rng.choice([1, 1, 2, 3]), rng.choice(FLOW_INTER), rng.choice([1, 1, 2, 5, 255]),
+                             rng.choice([0, 0, 0, 1, 2]), rng.randrange(len(FLOW_SYNC_CMDS)), rng.randrange(len(FLOW_DELAYS)),
+                             rng.randrange(16))
+            out.append((f'flow-{FLOW_NOP[sc[1]]}-nop-{FLOW_TIMING[sc[2]]}', self.name_of(sc), sc))
+        return out
+
+    def enum_frames(self):
+        lists = {}
+        for nop in FLOW_NOP:
+            lst = lists[nop] = []
+            i = 0
+            for resp in FLOW_RESP:
+                for timing in FLOW_TIMING:
+                    for pre_zero in (0, 1):
+                        for dup in (1, 2):
+                            for inter in FLOW_INTER:
+                                for extra in (0, 1, 2):
+                                    i += 1
+                                    sc = flow_script(resp, nop, timing, pre_zero, dup, inter, (1, 2, 255)[i % 3], extra,
+                                                     i % len(FLOW_SYNC_CMDS), i % len(FLOW_DELAYS), i % 16)
+                                    lst.append((f'flow-{nop}-nop-{timing}', self.name_of(sc), sc))
+        # run_case slices [part::parts] with parts = 4: even parts get the Command Complete re-openings, odd parts
+        # the Command Status ones (a finding about one kind must not hide the other)
+        out = []
+        for a, b in zip(lists['cc'], lists['cs']):
+            out += [a, b]
+        return out
+
+    # -- execution ------------------------------------------------------------------
+    def command(self, resp, which):
+        from bumble import hci
+        if resp == 'async':
+            return hci.HCI_LE_Read_Remote_Features_Command(connection_handle=self.env.vh)
+        name = FLOW_SYNC_CMDS[which % len(FLOW_SYNC_CMDS)]
+        return {'bd_addr': hci.HCI_Read_BD_ADDR_Command, 'local_name': hci.HCI_Read_Local_Name_Command,
+                'local_version': hci.HCI_Read_Local_Version_Information_Command,
+                'le_buffer_size': hci.HCI_LE_Read_Buffer_Size_Command, 'le_rand': hci.HCI_LE_Rand_Command,
+                'unknown_sync': lambda: hci.HCI_Read_RSSI_Command(handle=self.env.vh)}[name]()
+
+    async def run_command(self, cmd, resp):
+        try:
+            if resp == 'async':
+                return 'ok', await self.host.send_async_command(cmd, check_status=False)
+            return 'ok', await self.host.send_sync_command(cmd)
+        except asyncio.CancelledError:
+            raise
+        except BaseException as e:      # noqa: BLE001 — classified by the caller
+            return 'exc', e
+
+    def tx(self, sc):
+        from bumble import hci
+        plan = {'timing': FLOW_TIMING[sc[2]], 'nop': FLOW_NOP[sc[1]], 'pre_zero': sc[3], 'dup': sc[4], 'inter': FLOW_INTER[sc[5]],
+                'num': sc[6], 'delay': sc[9], 'neutral': sc[10], 'script': self.name_of(sc), 'shaped': True}
+        resp = FLOW_RESP[sc[0]]
+        cmd = self.command(resp, sc[8])
+        plan['opcode'] = cmd.op_code
+        plan['cmd'] = cmd.name
+        self.shaper.plans.append(plan)
+        plan['task'] = asyncio.ensure_future(self.run_command(cmd, resp))
+        self.tasks.append((plan['task'], plan))
+        for _ in range(sc[7]):
+            # further commands issued at the same moment: they wait for the window like a real caller would
+            extra = hci.HCI_Read_BD_ADDR_Command()
+            self.shaper.plans.append({'opcode': extra.op_code, 'shaped': False})
+            self.tasks.append((asyncio.ensure_future(self.run_command(extra, 'sync')), None))
+
+    def judge_result(self, res, cmd_name, bad):
+        kind, v = res
+        if kind == 'exc':
+            if is_fatal(v):
+                bad.append((f'wedge:fatal-{type(v).__name__}', f'{cmd_name} raised {type(v).__name__}: {v}'))
+            else:
+                self.env.r.ev('flow_commands_ordinary_exception')
+                self.env.r.add_extra_list('flow_command_exception_types', f'{cmd_name}:{type(v).__name__}')
+                if cmd_name == 'HCI_READ_BD_ADDR_COMMAND':
+                    bad.append(('command-fails-after-flow-control', f'{cmd_name} raised {type(v).__name__}: {v} although the '
+                                'controller answered it'))
+        elif cmd_name == 'HCI_READ_BD_ADDR_COMMAND':
+            got = bytes(getattr(v, 'bd_addr', b''))
+            if got != self.address:
+                bad.append(('command-wrong-result-after-flow-control', f'Read_BD_ADDR returned {got.hex()} != {self.address.hex()}'))
+
+    async def reference(self):
+        from bumble import hci
+        r = self.env.r
+        bad = []
+        tasks = self.tasks
+        pend = [t for t, _p in tasks if not t.done()]
+        if pend:
+            await asyncio.wait(pend, timeout=300)          # virtual seconds
+        self.tasks = []
+        stuck = next((i for i, (t, _p) in enumerate(tasks) if not t.done()), None)
+        if stuck is not None:
+            culprit = next((p for _t, p in reversed(tasks[:stuck]) if p is not None and 'resp' in p), None)
+            n = sum(1 for t, _p in tasks if not t.done())
+            for t, _p in tasks:
+                if not t.done():
+                    t.cancel()
+            sem = self.host.command_semaphore
+            return [(f'wedge:command-never-completes/{flow_class(culprit)}',
+                     f'{n} of {len(tasks)} host commands of the history still pending 300 virtual s after the last window '
+                     f're-opening was due; last shaped response before the first stuck one: {culprit and culprit["script"]} '
+                     f'({culprit and culprit["cmd"]}); command_semaphore locked={sem.locked()} pending_command={self.host.pending_command}')]
+        for t, p in tasks:
+            self.judge_result(t.result(), p['cmd'] if p else 'HCI_READ_BD_ADDR_COMMAND', bad)
+        r.ev('flow_commands_completed', len(tasks))
+        ref = hci.HCI_Read_BD_ADDR_Command()
+        self.shaper.plans.append({'opcode': ref.op_code, 'shaped': False})
+        task = asyncio.ensure_future(self.run_command(ref, 'sync'))
+        self.tasks.append((task, None))          # (in the ledger of waiting commands, like every other one)
+        try:
+            res = await vloop.vwait(task, 300)
+            self.tasks = []
+        except vloop.Hang:
+            self.tasks = []
+            sem = self.host.command_semaphore
+            return bad + [(f'wedge:command-never-completes/{flow_class(self.last_shaped)}',
+                           f'reference Read_BD_ADDR still pending after 300 virtual s; last shaped response: '
+                           f'{self.last_shaped and self.last_shaped["script"]}; command_semaphore locked={sem.locked()} '
+                           f'pending_command={self.host.pending_command}')]
+        n0 = len(bad)
+        self.judge_result(res, 'HCI_READ_BD_ADDR_COMMAND', bad)
+        if len(bad) == n0:
+            r.ev('flow_reference_commands_ok')
+        return bad + await self.att_read()
+
+
+# =============================================================================
+# (b) refusal dialogues during the configuration of a BR/EDR channel
+# =============================================================================
+CONF_RESULT = {0: 'success', 1: 'unacceptable-parameters', 2: 'rejected', 3: 'unknown-options', 4: 'pending', 5: 'flow-spec-rejected'}
+
+
+class BrConfigDriver(BrSigDriver):
+    """Every round configures a fresh basic-mode (sometimes ERTM) channel, opened by the peer or by the victim.
+    The hostile frames are Configure Requests carrying options a responder refuses or skips (unknown, hint,
+    unimplemented, FCS, wrong mode); then, as Core Vol 3 Part A 4.4/4.5 tells the requester, a well-formed
+    Configure Request follows: it must be answered with SUCCESS, the channel must open and carry data."""
+
+    def __init__(self, env, rng):
+        super().__init__(env, rng)
+        self.options = rf.conf_refusable_options()
+        self.corpus = []
+        self.cur = None
+        self.atk.serve(PEER_PSM, auto_config=False)
+
+    # -- frames: the option bytes of one Configure Request ---------------------------------
+    def frame(self, klass, name, opt, rng, solo=False):
+        mtu = rf.conf_opt(1, rf.u16(rng.choice([48, 672, 1024])))
+        shape = rng.choice(['alone', 'after-mtu', 'before-mtu']) if not solo else 'alone'
+        data = {'alone': opt, 'after-mtu': mtu + opt, 'before-mtu': opt + mtu}[shape]
+        return (('solo-' if solo else '') + klass, f'{name}/{shape}', data)
+
+    def gen(self, n):
+        rng = self.rng
+        out = []
+        for _ in range(min(n, rng.choice([1, 2, 3, 4]))):
+            k = rng.random()
+            if k < 0.8:
+                klass, name, opt = rng.choice(self.options)
+                if rng.random() < 0.15:
+                    k2, n2, o2 = rng.choice(self.options)
+                    opt, name = opt + o2, f'{name}+{n2}'
+                out.append(self.frame(klass, name, opt, rng))
+            elif k < 0.9:
+                # ('No FCS': acceptable in every mode; asking for an FCS would, once accepted, change the frame format)
+                out.append(self.frame('fcs-option', 'no-fcs', rf.conf_opt(5, b'\x00'), rng))
+            else:
+                out.append(self.frame('mode-mismatch', 'rfc-other-mode', rf.conf_opt(4, bytes([rng.choice([1, 2, 4]), 8, 3]) + rf.u16(2000) + rf.u16(12000) + rf.u16(256)), rng))
+        return out
+
+    def enum_frames(self):
+        r2 = random.Random(99)
+        for klass, name, opt in self.options:
+            yield self.frame(klass, name, opt, r2, solo=True)
+            mtu = rf.conf_opt(1, rf.u16(672))
+            yield ('solo-' + klass, f'{name}/after-mtu', mtu + opt)
+
+    # -- one configuration phase ----------------------------------------------------------------
+    def vreq(self):
+        """Next Configure Request of the victim for the current channel, if one arrived."""
+        my = self.cur['my']
+        return self.atk.take_sig(lambda c, i, d: c == 0x04 and len(d) >= 4 and struct.unpack_from('<H', d, 0)[0] == my)
+
+    def answer_vreq(self, s, result=0, options=None):
+        self.atk.send_sig(0x05, s[1], rf.u16(self.cur['dcid']) + rf.u16(0) + rf.u16(result) + (s[2][4:] if options is None else options))
+
+    async def before_round(self):
+        from bumble import l2cap
+        atk, rng = self.atk, self.rng
+        self.cur = None
+        atk.sigs.clear()
+        ertm = rng.random() < 0.2
+        initiated = (not ertm) and rng.random() < 0.3
+        cur = {'ertm': ertm, 'victim_initiated': initiated, 'sent': [], 'task': None}
+        if initiated:
+            n0 = len(atk.served)
+            cur['task'] = asyncio.ensure_future(self.env.vconn.create_l2cap_channel(spec=l2cap.ClassicChannelSpec(psm=PEER_PSM, mtu=1200)))
+            got = await atk.until(lambda: atk.served[n0] if len(atk.served) > n0 else None)
+            if got is None:
+                raise HarnessError('the victim sent no Connection Request for the peer PSM')
+            cur['my'], cur['dcid'] = got[0], got[1]
+        else:
+            my = atk.new_cid()
+            ident = atk.nid()
+            atk.send_sig(0x02, ident, rf.u16(ECHO_PSM_ERTM if ertm else ECHO_PSM_BR) + rf.u16(my))
+            s = await atk.until(lambda: atk.take_sig(lambda c, i, d: c == 0x03 and i == ident and len(d) >= 8 and
+                                                     struct.unpack_from('<H', d, 4)[0] != 1))
+            if s is None or struct.unpack_from('<H', s[2], 4)[0] != 0:
+                raise HarnessError(f'cannot open a channel for the configuration dialogue: {s}')
+            cur['my'], cur['dcid'] = my, struct.unpack_from('<H', s[2], 0)[0]
+        self.cur = cur
+        # the victim's own Configure Request: answered now, later, or first refused with a counter-proposal
+        cur['order'] = rng.choice(['answer-first', 'answer-first', 'answer-last', 'refuse-first'])
+        if cur['order'] != 'answer-last':
+            s = await atk.until(self.vreq)
+            if s is None:
+                raise HarnessError('the victim sent no Configure Request')
+            if cur['order'] == 'refuse-first' and not ertm:
+                # unacceptable MTU: the response proposes 256 (legal: 4.5, result 0x0001 carries acceptable values)
+                self.answer_vreq(s, result=1, options=rf.conf_opt(1, rf.u16(256)))
+                self.env.r.ev('config_victim_request_refused')
+                if rng.random() < 0.5:
+                    s = await atk.until(self.vreq)
+                    if s is not None:
+                        self.answer_vreq(s)
+            else:
+                self.answer_vreq(s)
+            await atk.rg.quiesce(extra_turns=4)
+
+    def tx(self, data):
+        cur = self.cur
+        ident = self.atk.nid()
+        cur['sent'].append((ident, data))
+        self.atk.send_sig(0x04, ident, rf.u16(cur['dcid']) + rf.u16(0) + data)
+
+    async def reference(self):
+        from bumble import l2cap
+        atk, r = self.atk, self.env.r
+        cur, self.cur = self.cur, None
+        if cur is None:
+            return await super().reference()
+        self.cur = cur      # (vreq / answer_vreq use it)
+        try:
+            return await self.finish_dialogue(cur)
+        finally:
+            self.cur = None
+            t = cur['task']
+            if t is not None and not t.done():
+                t.cancel()
+
+    async def finish_dialogue(self, cur):
+        atk, r = self.atk, self.env.r
+        my, dcid = cur['my'], cur['dcid']
+        ctx = f"channel {my:#x}->{dcid:#x} ({'opened by the victim' if cur['victim_initiated'] else 'opened by the peer'}, " \
+              f"{'ERTM' if cur['ertm'] else 'basic'}, victim request {cur['order']})"
+        # 1. what happened to the hostile requests
+        last = 'no-response'
+        accepted = False
+        for ident, data in cur['sent']:
+            s = await atk.until(lambda: atk.take_sig(lambda c, i, d: c in (0x05, 0x01) and i == ident), t=1.0)
+            if s is None:
+                r.ev('config_hostile_unanswered')
+                last = 'no-response'
+            elif s[0] == 0x01:
+                r.ev('config_hostile_command_reject')
+                last = 'command-reject'
+            else:
+                res = struct.unpack_from('<H', s[2], 4)[0] if len(s[2]) >= 6 else -1
+                last = CONF_RESULT.get(res, 'other-result')
+                r.ev(f'config_hostile_result_{last}')
+                if res == 0:
+                    accepted = True
+                else:
+                    r.ev('config_refusals_observed')
+        if my in self.closed_by_victim:
+            # the victim gave the channel up (a Disconnection Request, e.g. after a mode it does not do): legitimate,
+            # nothing more is owed on this channel - but the next one must work
+            r.ev('config_victim_closed_channel')
+            return (await self.l2cap_echo()) + (await self.new_channel_reference())
+        # 2. the well-formed request
+        if not accepted:
+            ident = atk.nid()
+            opts = rf.conf_opt(1, rf.u16(1024))
+            if cur['ertm']:
+                opts += rf.conf_opt(4, bytes([3, 8, 3]) + rf.u16(2000) + rf.u16(12000) + rf.u16(256))
+            atk.send_sig(0x04, ident, rf.u16(dcid) + rf.u16(0) + opts)
+            s = await atk.until(lambda: atk.take_sig(lambda c, i, d: c in (0x05, 0x01) and i == ident))
+            if s is None:
+                return [(f'wellformed-retry-unanswered/after-{last}',
+                         f'{ctx}: Configure Request (MTU option only) sent after {len(cur["sent"])} refused/ignored request(s) got no '
+                         f'Configure Response; victim channel state {self.victim_state(cur)}')]
+            res = struct.unpack_from('<H', s[2], 4)[0] if s[0] == 0x05 and len(s[2]) >= 6 else -1
+            if res != 0:
+                return [(f'wellformed-retry-refused/after-{last}',
+                         f'{ctx}: well-formed Configure Request answered with code {s[0]:#x} {s[2].hex()}')]
+            r.ev('config_retries_answered')
+        # 3. the victim's own request(s)
+        for _ in range(6):
+            s = await atk.until(self.vreq, t=0.5)
+            if s is None:
+                break
+            self.answer_vreq(s)
+        await atk.rg.quiesce(extra_turns=8)
+        if my in self.closed_by_victim:
+            r.ev('config_victim_closed_channel')
+            return (await self.l2cap_echo()) + (await self.new_channel_reference())
+        # 4. the channel is open and carries data
+        bad = []
+        self.n += 1
+        payload = b'C17 after refusal %d' % self.n
+        if cur['victim_initiated']:
+            try:
+                ch = await vloop.vwait(cur['task'], 60)
+            except vloop.Hang:
+                return [(f'victim-open-never-completes/after-{last}', f'{ctx}: create_l2cap_channel still pending 60 virtual s after both '
+                                                                     f'directions were configured; state {self.victim_state(cur)}')]
+            except Exception as e:
+                return [(f'victim-open-fails/after-{last}', f'{ctx}: create_l2cap_channel raised {type(e).__name__}: {e}')]
+            got = []
+            ch.sink = lambda data: got.append(bytes(data))
+            atk.data[my] = []
+            atk.send(dcid, payload)
+            ch.write(payload[::-1])
+            await atk.until(lambda: True if got and atk.data.get(my) else None)
+            if got != [payload] or atk.data.get(my) != [payload[::-1]]:
+                bad.append((f'no-data-after-refusal-dialogue/after-{last}', f'{ctx}: victim received {got}, peer received {atk.data.get(my)}'))
+            else:
+                r.ev('config_victim_initiated_opened')
+                r.ev('config_channels_carry_data')
+        elif not cur['ertm']:
+            e = await self.sdu_echo(my, dcid, payload)
+            if e is not None:
+                bad.append((f'no-data-after-refusal-dialogue/after-{last}', f'{ctx}: {e}; victim channel state {self.victim_state(cur)}'))
+            else:
+                r.ev('config_channels_carry_data')
+        ident = atk.nid()
+        atk.send_sig(0x06, ident, rf.u16(dcid) + rf.u16(my))
+        s = await atk.until(lambda: atk.take_sig(lambda c, i, d: c == 0x07 and i == ident))
+        if s is None:
+            bad.append(('no-disconnection-response', f'{ctx}: Disconnection Request not answered'))
+        return bad + await self.l2cap_echo()
+
+    def victim_state(self, cur):
+        # diagnosis only
+        try:
+            chans = self.env.victim.l2cap_channel_manager.channels.get(self.env.vh, {})
+            ch = chans.get(cur['dcid'])
+            return ch.state.name if ch is not None else 'no such channel'
+        except Exception as e:      # noqa: BLE001
+            return f'? ({e})'
+
+
+# =============================================================================
+# (c) the victim as SDP client of a hand-written SDP server
+# =============================================================================
+class SdpClientDriver(ChannelDriver):
+    """The victim's sdp.Client talks to an SDP server played by hand. Hostile frames are responses to the request
+    the victim has outstanding (same transaction ID unless the frame says otherwise): mutated responses and
+    AttributeLists with structure-aware deep nesting, whole or over several continuation responses. Then the peer
+    answers properly: the outstanding call must return, and a fresh search_attributes must give the record the
+    peer serves."""
+    psm = 1
+    APIS = ('search_attributes', 'get_attributes', 'search_services')
+
+    async def setup(self):
+        from bumble import sdp
+        atk = self.atk
+        atk.serve(1, auto_config=True)
+        self.client = sdp.Client(self.env.vconn)
+        await vloop.vwait(self.client.connect(), 60)
+        await atk.rg.quiesce(extra_turns=8)
+        my, vcid, _psm = atk.served[-1]
+        self.ch = (my, vcid)
+        self.corpus = rf.sdp_client_corpus(SDP_HANDLE)
+        self.max_len = 700
+        self.specs = None
+        self.req = None            # (pdu id, tid bytes) of the victim's outstanding request
+        self.task = None
+        self.answering = False
+        self.split = None
+        self.next_api = None
+        self.requests_seen = 0
+        atk.auto.append(self._on_request)
+
+    def good_response(self, pid, tid):
+        one = rf.sdp_record_attribute_list(SDP_HANDLE)
+        if pid == 0x02:
+            return rf.sdp_search_rsp(tid, [SDP_HANDLE])
+        if pid == 0x04:
+            return rf.sdp_attribute_rsp(tid, one)
+        return rf.sdp_search_attribute_rsp(tid, rf.de_seq(one))
+
+    def _on_request(self, cid, payload):
+        if cid != self.ch[0] or len(payload) < 5:
+            return
+        self.requests_seen += 1
+        self.req = (payload[0], payload[1:3])
+        if self.split:
+            self.serve_split()
+        elif self.answering:
+            self.tx_raw(self.good_response(*self.req))
+
+    def tx_raw(self, data):
+        self.atk.send(self.ch[1], data)
+
+    def serve_split(self):
+        pid, tid = self.req
+        rsp = 0x05 if pid == 0x04 else 0x07
+        chunk = self.split.pop(0)
+        cont = b'\x02\x01' + bytes([len(self.split)]) if self.split else b'\x00'
+        if not self.split:
+            self.split = None
+            self.env.r.ev('sdpc_split_responses_completed')
+        body = rf.be16(len(chunk)) + chunk + cont
+        self.tx_raw(bytes([rsp]) + tid + rf.be16(len(body)) + body)
+
+    def gen(self, n):
+        rng = self.rng
+        out = super().gen(min(n, rng.choice([1, 2, 3, 5])))
+        self.next_api = None
+        if rng.random() < 0.4:
+            if self.specs is None:
+                self.specs = rf.sdp_shaped_specs()
+            fr = rf.sdp_deep_responses(12000, [rng.choice(self.specs)])
+            if fr:
+                out[rng.randrange(len(out))] = fr[0]
+        if any(k.startswith('deep') for k, _n, _d in out):
+            self.next_api = rng.choice(self.APIS[:2])
+        return out
+
+    def enum_frames(self):
+        yield from super().enum_frames()
+        # one per round (each needs a request of its own), thinned out like the rest in the quick tier
+        quick = self.env.case.get('stride', 1) > 1
+        for k, n, d in rf.sdp_deep_responses(6000 if quick else 12000):
+            yield 'single-' + k, n, d
+
+    async def call(self, api):
+        from bumble.core import UUID
+        c = self.client
+        try:
+            if api == 'search_attributes':
+                return 'ok', await c.search_attributes([UUID.from_16_bits(0x1101)], [(0, 0xFFFF)])
+            if api == 'get_attributes':
+                return 'ok', await c.get_attributes(SDP_HANDLE, [(0, 0xFFFF)])
+            return 'ok', await c.search_services([UUID.from_16_bits(0x1101)])
+        except asyncio.CancelledError:
+            raise
+        except BaseException as e:          # noqa: BLE001 — classified by the caller
+            return 'exc', e
+
+    async def before_round(self):
+        if self.task is None or self.task.done():
+            self.req = None
+            self.split = None
+            api = self.next_api or self.rng.choice(self.APIS)
+            self.api = api
+            self.task = asyncio.ensure_future(self.call(api))
+            got = await self.atk.until(lambda: self.req)
+            if got is None:
+                raise HarnessError(f'the victim sent no SDP request for {api}')
+
+    def tx(self, data):
+        if self.task is not None and self.task.done():
+            self.req = None       # nothing outstanding any more: what follows is unsolicited
+        req = self.req
+        split = data[1:3] == rf.SDP_TID_PLACEHOLDER_SPLIT
+        if req is not None and len(data) >= 7 and (split or data[1:3] == rf.SDP_TID_PLACEHOLDER):
+            pid, tid = req
+            data = data[:1] + tid + data[3:]
+            rsp = {0x02: 0x03, 0x04: 0x05, 0x06: 0x07}.get(pid, 0x07)
+            nested = len(data) > 600
+            if data[0] in (0x05, 0x07) and rsp in (0x05, 0x07) and (nested or self.rng.random() < 0.8):
+                data = bytes([rsp]) + data[1:]          # (both responses have the same layout)
+            if nested:
+                self.env.r.ev('sdpc_deep_responses_sent')
+                if split:
+                    # the same AttributeList(s) over three continuation responses
+                    n = int.from_bytes(data[5:7], 'big')
+                    lists = data[7:7 + n]
+                    k = max(1, len(lists) // 3)
+                    self.split = [lists[:k], lists[k:2 * k], lists[2 * k:]]
+                    self.serve_split()
+                    return
+        self.tx_raw(data)
+
+    def judge(self, res, what, bad):
+        kind, v = res
+        r = self.env.r
+        r.ev('sdpc_calls_completed')
+        if kind == 'exc':
+            if is_fatal(v):
+                bad.append((f'wedge:fatal-{type(v).__name__}', f'{what} raised {type(v).__name__}: {str(v)[:120]}'))
+            else:
+                r.ev('sdpc_calls_ordinary_exception')
+                r.add_extra_list('sdpc_exception_types', type(v).__name__)
+                if type(v).__name__ == 'InvalidPacketError' and 'nesting' in str(v):
+                    r.ev('sdpc_deep_responses_parsed')
+        return kind, v
+
+    async def reference(self):
+        from bumble.core import UUID
+        bad = []
+        closed = self.channel_closed_by_victim()
+        if closed:
+            return closed
+        # 1. the peer now answers the outstanding request properly: the call must return
+        self.answering = True
+        try:
+            if self.task is not None and not self.task.done():
+                if self.split:
+                    self.split = None
+                if self.req is not None:
+                    self.tx_raw(self.good_response(*self.req))
+                try:
+                    await vloop.vwait(asyncio.shield(self.task), 120)
+                except vloop.Hang:
+                    self.task.cancel()
+                    self.task = None
+                    return self.channel_closed_by_victim() or [
+                        ('client-request-never-completes', f'victim sdp.Client.{self.api} still pending 120 virtual s after the peer '
+                                                           f'answered its outstanding request {self.req and (self.req[0], self.req[1].hex())} properly')]
+            if self.task is not None:
+                self.judge(self.task.result(), f'sdp.Client.{self.api}', bad)
+                self.task = None
+            # 2. a fresh query
+            self.req = None
+            try:
+                res = await vloop.vwait(self.call('search_attributes'), 120)
+            except vloop.Hang:
+                return bad + (self.channel_closed_by_victim() or [('client-request-never-completes', 'fresh search_attributes still pending after 120 virtual s')])
+            kind, v = self.judge(res, 'sdp.Client.search_attributes (reference)', bad)
+            if kind == 'exc':
+                if not is_fatal(v):
+                    bad.append(('client-request-fails-after-garbage', f'search_attributes raised {type(v).__name__}: {v} although the peer answered properly'))
+            else:
+                ok = False
+                try:
+                    ok = (len(v) == 1 and [a.id for a in v[0]] == [0, 1] and v[0][0].value.value == SDP_HANDLE and
+                          v[0][1].value.value[0].value == UUID.from_16_bits(0x1101))
+                except Exception:       # noqa: BLE001
+                    ok = False
+                if not ok:
+                    bad.append(('client-wrong-result-after-garbage', f'search_attributes returned {str(v)[:200]}'))
+        finally:
+            self.answering = False
+        return bad
+
+
+# =============================================================================
 # case runner
 # =============================================================================
 async def make_driver(env: Env, rng: random.Random) -> Driver:
@@ -1461,13 +2259,13 @@ async def make_driver(env: Env, rng: random.Random) -> Driver:
         central = True if chan == 'smp' else rng.random() < 0.5
         await setup_le(env, rng, central)
         d = {'att': AttDriver, 'att-client': AttClientDriver, 'smp': SmpDriver, 'le-sig': LeSigDriver,
-             'le-coc': LeCocDriver}.get(chan)
+             'le-coc': LeCocDriver, 'hci-flow': FlowDriver}.get(chan)
         drv = d(env, rng) if d else HciDriver(env, rng, classic=False)
     else:
         await setup_br(env, rng, chan)
         d = {'br-sig': BrSigDriver, 'smp-br': SmpBrDriver, 'br-dyn': BrDynDriver, 'br-ertm': BrErtmDriver, 'sdp': SdpDriver,
              'rfcomm-mux': RfcommDriver, 'rfcomm-dlc': RfcommDlcDriver, 'hfp-ag': HfpAgDriver, 'hfp-hf': HfpHfDriver,
-             'avdtp': AvdtpDriver, 'avctp': AvctpDriver}.get(chan)
+             'avdtp': AvdtpDriver, 'avctp': AvctpDriver, 'br-config': BrConfigDriver, 'sdp-client': SdpClientDriver}.get(chan)
         drv = d(env, rng) if d else HciDriver(env, rng, classic=True)
     drv.chan = chan
     await drv.setup()
@@ -1505,7 +2303,8 @@ async def after_round(env: Env, drv: Driver, frames) -> bool:
         return False
     if bad:
         for symptom, detail in bad:
-            env.bad(f'derail/{env.chan}/{symptom}', f'{detail} || after frames: {what} || last exceptions {env.last_exceptions}')
+            key = f'wedge/{env.chan}/{symptom[6:]}' if symptom.startswith('wedge:') else f'derail/{env.chan}/{symptom}'
+            env.bad(key, f'{detail} || after frames: {what} || last exceptions {env.last_exceptions}')
         return False
     r.ev('references_ok')
     return True
@@ -1539,12 +2338,14 @@ async def run_case(case, r: R):
         if case['mode'] == 'enum':
             frames = list(drv.enum_frames())
             frames = frames[case['part']::case['parts']]
-            solo = [f for f in frames if f[0].startswith('solo-')]        # never thinned out
+            solo = [f for f in frames if f[0].startswith('solo-')]        # never thinned out, one per round
             frames = [f for f in frames if not f[0].startswith('solo-')]
             if case.get('stride', 1) > 1:
                 off = case['seed'] % case['stride']
                 frames = frames[off::case['stride']]
-            groups = [frames[i:i + 5] for i in range(0, len(frames), 5)] + [[f] for f in solo]
+            single = [f for f in frames if f[0].startswith('single-')]    # thinned out, but one per round
+            frames = [f for f in frames if not f[0].startswith('single-')]
+            groups = [frames[i:i + 5] for i in range(0, len(frames), 5)] + [[f] for f in single + solo]
         else:
             groups = None
         k = 0
@@ -1596,13 +2397,19 @@ async def run_case(case, r: R):
 
 LEVEL_TEXT = ('Work meter (sys.monitoring PY_START/JUMP counts per injected frame, RAISE events for RecursionError/MemoryError, '
               'livelock detection of the virtual loop), fatal-escape monitor and alive/answer oracle on a real victim device, over '
-              '~1.7x10^4 (quick) / ~1.06x10^6 (thorough) hostile frames on 18 input surfaces (ATT server and client side, SMP LE and '
-              'BR/EDR, LE and BR/EDR signalling, credit-based, basic and ERTM dynamic channels, SDP, RFCOMM mux and DLC, HFP AG and HF '
-              'AT streams, AVDTP, AVCTP/AVRCP, HCI events/ACL/SCO/ISO into the host on LE and BR/EDR links): every truncation length '
-              'and every length-field setting of ~500 hand-written valid PDUs is enumerated (every third one per seed in the quick '
-              'tier), the rest is seeded structure-aware mutation in rounds of 1-10 frames, each round followed by a reference request '
-              'whose expected answer is written down from the specification (~3x10^3 quick / ~1.9x10^5 thorough reference '
-              'evaluations). Sampling of the byte-string space, not proof.')
+              '~1.8x10^4 (quick) / ~10^6 (thorough) hostile frames on 21 input surfaces (ATT server and client side, SMP LE and '
+              'BR/EDR, LE and BR/EDR signalling, credit-based, basic and ERTM dynamic channels, SDP server and SDP client, RFCOMM mux '
+              'and DLC, HFP AG and HF AT streams, AVDTP, AVCTP/AVRCP, HCI events/ACL/SCO/ISO into the host on LE and BR/EDR links, HCI '
+              'command flow control played by a hand-written controller, BR/EDR configuration refusal dialogues): every truncation '
+              'length and every length-field setting of ~530 hand-written valid PDUs is enumerated (every third one per seed in the '
+              'quick tier), the rest is seeded structure-aware mutation in rounds of 1-10 frames, each round followed by a reference '
+              'request whose expected answer is written down from the specification (~4x10^3 quick / ~2x10^5 thorough reference '
+              'evaluations). Command flow control: all 768 combinations of closing response / re-opening event / timing / repetition / '
+              'interleaving / waiting commands plus seeded histories, every command must complete in bounded virtual time. '
+              'Configuration dialogues: all 68 refusable option encodings (unknown, hint, unimplemented) as first request of a fresh '
+              'channel in two framings, then the well-formed retry, data both ways. Structure-aware nesting: 756 shapes (siblings '
+              'before/after x SEQUENCE/ALTERNATIVE pattern x sibling type x depth 30..2000) into the SDP server and the SDP client. '
+              'Sampling of the byte-string / history space, not proof.')
 LEVEL_NOTE = ('Trusted: the hand-written corpora, builders and reference parsers in vlib/ref_fuzz.py, the hand-driven L2CAP/'
               'RFCOMM/AT attacker in checks/c17.py, rig taps, the virtual-time loop, CPython sys.monitoring. A busy loop that '
               'makes no Python call and no backward jump inside bumble code would only show as a wall-clock watchdog '
